@@ -62,7 +62,11 @@ def law(cell):
     tname, pts, form, wd = cell
     table = _table(tname)
     std = [(p['Mach'], p['CD']) for p in table]
-    args = (pb.Unit.Grain(168), pb.Unit.Inch(0.308), pb.Unit.Inch(1.2)) if wd else ()
+    args = (pb.Unit.Grain(168), pb.Unit.Inch(0.308), pb.Unit.Inch(1.2)) if wd is True else ()
+    if wd == 'w_only':
+        args = (pb.Unit.Grain(168),)                   # weight without diameter
+    elif wd == 'd_only':
+        args = (0, pb.Unit.Inch(0.308))                # diameter without weight
     out = []
     points = _points(pts, form)
     snap = [(p.BC, bits(p.Mach), bits(p.V.raw_value)) for p in points]
@@ -264,6 +268,10 @@ def plan(tier):
         for t in TABLES[2:]:
             for pl in pls[::16]:
                 law_cells.append([t, pl, 'Mach', True])
+    for t in ('G7', 'G1'):
+        for pl in pls[::8]:
+            for wd in ('w_only', 'd_only'):
+                law_cells.append([t, pl, 'Mach', wd])
     # points faster than the table's last entry (Mach 5 for most tables, 4 for GS / RA4) still shape the interpolation below them
     for t in TABLES:
         for pl in OUTSIDE:
